@@ -6,6 +6,7 @@ import (
 	"go/token"
 	"go/types"
 	"sort"
+	"strings"
 
 	"golang.org/x/tools/go/ssa"
 
@@ -301,4 +302,404 @@ func mayWriteParam(cg *eng.CG, f *ssa.Function, idx int, seen map[string]bool) (
 		}
 	}
 	return false, ""
+}
+
+// fromCryptoRand reports whether v is computed from bytes produced by crypto/rand in the same
+// function (or by an in-scope callee all of whose results are): rand.Int(rand.Reader, …) and
+// methods of the *big.Int it returns, a slice filled by crypto/rand.Read, conversions, byte
+// order helpers and arithmetic over such values. why names the first operand that is not.
+func fromCryptoRand(v ssa.Value, depth int) (bool, string) {
+	if depth > 10 || v == nil {
+		return false, "value too deep to follow"
+	}
+	switch x := v.(type) {
+	case *ssa.Convert:
+		return fromCryptoRand(x.X, depth+1)
+	case *ssa.ChangeType:
+		return fromCryptoRand(x.X, depth+1)
+	case *ssa.BinOp:
+		// arithmetic with constants keeps the randomness; both operands otherwise
+		if _, isC := x.Y.(*ssa.Const); isC {
+			return fromCryptoRand(x.X, depth+1)
+		}
+		if _, isC := x.X.(*ssa.Const); isC {
+			return fromCryptoRand(x.Y, depth+1)
+		}
+		a, wa := fromCryptoRand(x.X, depth+1)
+		b, wb := fromCryptoRand(x.Y, depth+1)
+		if a || b {
+			return true, ""
+		}
+		return false, wa + "; " + wb
+	case *ssa.Extract:
+		return fromCryptoRand(x.Tuple, depth+1)
+	case *ssa.Phi:
+		for _, e := range x.Edges {
+			if ok, why := fromCryptoRand(e, depth+1); !ok {
+				return false, why
+			}
+		}
+		return true, ""
+	case *ssa.Call:
+		id := eng.FuncID(eng.CalleeObj(&x.Call))
+		args := eng.CallArgs(&x.Call)
+		switch id {
+		case "crypto/rand.Int", "crypto/rand.Prime":
+			if len(args) > 0 {
+				if u, ok := args[0].(*ssa.UnOp); ok {
+					if g, ok := u.X.(*ssa.Global); ok && g.Pkg.Pkg.Path() == "crypto/rand" && g.Name() == "Reader" {
+						return true, ""
+					}
+				}
+			}
+			return false, "rand.Int not reading crypto/rand.Reader"
+		}
+		if strings.HasPrefix(id, "math/big.Int.") || strings.HasPrefix(id, "encoding/binary.bigEndian.") || strings.HasPrefix(id, "encoding/binary.littleEndian.") || strings.HasPrefix(id, "encoding/binary.ByteOrder.") {
+			if len(args) > 0 {
+				for _, a := range args {
+					if ok, _ := fromCryptoRand(a, depth+1); ok {
+						return true, ""
+					}
+				}
+			}
+			return false, "operand of " + id + " is not random"
+		}
+		if sc := x.Call.StaticCallee(); sc != nil && sc.Blocks != nil {
+			n := 0
+			for _, rv := range eng.ResultValues(sc, 0) {
+				n++
+				if ok, why := fromCryptoRand(rv, depth+1); !ok {
+					return false, "via " + sc.Name() + ": " + why
+				}
+			}
+			return n > 0, "no result"
+		}
+		return false, "result of " + id
+	case *ssa.Slice:
+		return fromCryptoRand(x.X, depth+1)
+	case *ssa.MakeSlice, *ssa.Alloc:
+		// a buffer: random if it is handed to crypto/rand.Read in this function
+		filled := false
+		var visit func(b ssa.Value, d int)
+		visit = func(b ssa.Value, d int) {
+			if d > 3 || b.Referrers() == nil {
+				return
+			}
+			for _, r := range *b.Referrers() {
+				switch y := r.(type) {
+				case *ssa.Slice:
+					visit(y, d+1)
+				case ssa.CallInstruction:
+					if id := eng.FuncID(eng.CalleeObj(y.Common())); id == "crypto/rand.Read" || id == "io.ReadFull" {
+						filled = true
+					}
+				}
+			}
+		}
+		visit(x, 0)
+		if filled {
+			return true, ""
+		}
+		return false, "buffer never filled by crypto/rand.Read"
+	case *ssa.UnOp:
+		if x.Op == token.MUL {
+			if ia, ok := x.X.(*ssa.IndexAddr); ok {
+				return fromCryptoRand(ia.X, depth+1)
+			}
+			if al, ok := x.X.(*ssa.Alloc); ok {
+				n := 0
+				for _, r := range *al.Referrers() {
+					if st, ok := r.(*ssa.Store); ok && st.Addr == al {
+						n++
+						if ok, why := fromCryptoRand(st.Val, depth+1); !ok {
+							return false, why
+						}
+					}
+				}
+				if n > 0 {
+					return true, ""
+				}
+			}
+		}
+		return fromCryptoRand(x.X, depth+1)
+	}
+	return false, "not derived from crypto/rand: " + eng.Describe(v)
+}
+
+// saltRule: every Key.SetSalt in production code stores a value drawn from crypto/rand.
+func saltRule(c *core.Ctx, rule string) {
+	c.Rule(rule, "every security.Key.SetSalt(x) in production code takes x from crypto/rand (rand.Int(rand.Reader, …)): the salt whitens the other blocks of a key under the v1/v3 ciphers, a constant or inherited salt lets blocks of different keys of one master be recombined", 4)
+	n := 0
+	for _, f := range c.P.ScopeFuncs() {
+		for _, call := range eng.Calls(f, false, M+"security.Key.SetSalt") {
+			n++
+			a := eng.CallArgs(call.Common())
+			ok, why := fromCryptoRand(a[1], 0)
+			c.Check(ok, rule, fnName(f)+":salt is random", call.Pos(), "the salt is drawn from crypto/rand", "the salt of a new key is not drawn from crypto/rand ("+why+"): keys minted from one master then share their salt and their encrypted blocks can be spliced into each other")
+		}
+	}
+	c.Count("callsites_analysed", n)
+}
+
+// ---- pool hygiene (P) -----------------------------------------------------------------------
+
+// isPoolPut reports whether in returns an object to a sync.Pool: (*sync.Pool).Put or an
+// in-scope wrapper whose body hands its parameter to (*sync.Pool).Put. It returns the object.
+func isPoolPut(in ssa.Instruction) (ssa.Value, bool) {
+	ci, ok := in.(ssa.CallInstruction)
+	if !ok {
+		return nil, false
+	}
+	cc := ci.Common()
+	if eng.FuncID(eng.CalleeObj(cc)) == "sync.Pool.Put" {
+		a := eng.CallArgs(cc)
+		return a[len(a)-1], true
+	}
+	if sc := cc.StaticCallee(); sc != nil && sc.Blocks != nil && core.InScope(pkgPathOf(sc)) && len(sc.Params) > 0 {
+		inner := false
+		last := sc.Params[len(sc.Params)-1]
+		eng.Instrs(sc, func(i2 ssa.Instruction) {
+			if c2, ok := i2.(ssa.CallInstruction); ok && eng.FuncID(eng.CalleeObj(c2.Common())) == "sync.Pool.Put" {
+				a := eng.CallArgs(c2.Common())
+				v := a[len(a)-1]
+				if mi, ok := v.(*ssa.MakeInterface); ok {
+					v = mi.X
+				}
+				if v == ssa.Value(last) {
+					inner = true
+				}
+			}
+		})
+		if inner {
+			a := eng.CallArgs(cc)
+			return a[len(a)-1], true
+		}
+	}
+	return nil, false
+}
+
+// poolRule: nothing derived from a pooled object is touched after the object went back to its
+// pool (another goroutine may already be writing into it), in the functions of the given
+// packages. A deferred Put runs after the last use by construction.
+func poolRule(c *core.Ctx, rule string, pkgs ...string) {
+	c.Rule(rule, "pool hygiene: after a pooled object is returned to its sync.Pool (directly or through a wrapper) no value derived from it (its buffer, slices of it, results of its methods) is used on any path; a deferred Put satisfies this by construction", 1)
+	inPkgs := map[string]bool{}
+	for _, p := range pkgs {
+		inPkgs[M+p] = true
+	}
+	nPut := 0
+	for _, f := range c.P.ScopeFuncs() {
+		if !inPkgs[pkgPathOf(f)] {
+			continue
+		}
+		eng.Instrs(f, func(in ssa.Instruction) {
+			obj, ok := isPoolPut(in)
+			if !ok {
+				return
+			}
+			nPut++
+			key := fmt.Sprintf("%s:no use after Put", fnName(f))
+			_, isDefer := in.(*ssa.Defer)
+			if _, isGo := in.(*ssa.Go); isGo {
+				c.Fail(rule, key, in.Pos(), "the pooled object is returned from a new goroutine: the return is not ordered after the last use")
+				return
+			}
+			// root of the object
+			root := obj
+			for {
+				switch x := root.(type) {
+				case *ssa.MakeInterface:
+					root = x.X
+					continue
+				case *ssa.TypeAssert:
+					root = x.X
+					continue
+				case *ssa.ChangeType:
+					root = x.X
+					continue
+				}
+				break
+			}
+			D := map[ssa.Value]bool{}
+			var grow func(v ssa.Value, d int)
+			grow = func(v ssa.Value, d int) {
+				if v == nil || D[v] || d > 12 {
+					return
+				}
+				D[v] = true
+				if v.Referrers() == nil {
+					return
+				}
+				for _, r := range *v.Referrers() {
+					switch x := r.(type) {
+					case *ssa.TypeAssert, *ssa.Phi, *ssa.FieldAddr, *ssa.IndexAddr, *ssa.Slice, *ssa.MakeInterface, *ssa.ChangeType, *ssa.Convert, *ssa.UnOp:
+						grow(x.(ssa.Value), d+1)
+					case *ssa.Extract:
+						if _, fromCall := x.Tuple.(*ssa.Call); !fromCall {
+							grow(x, d+1)
+						}
+					case *ssa.Call:
+						// results that can alias the pooled object: methods *on* it (Buffer(), Bytes(),
+						// Slice()), and in-scope functions it is passed to; results of out-of-scope
+						// functions that merely read it (w.Write, snappy.Encode) are new values
+						args := eng.CallArgs(&x.Call)
+						isRecv := len(args) > 0 && args[0] == v && (x.Call.IsInvoke() || (x.Call.StaticCallee() != nil && x.Call.StaticCallee().Signature.Recv() != nil))
+						inScope := x.Call.StaticCallee() != nil && x.Call.StaticCallee().Blocks != nil && core.InScope(pkgPathOf(x.Call.StaticCallee()))
+						if !isRecv && !inScope {
+							break
+						}
+						aliasable := func(t types.Type) bool {
+							switch u := t.Underlying().(type) {
+							case *types.Pointer, *types.Slice, *types.Map, *types.Chan, *types.Struct:
+								return true
+							case *types.Interface:
+								return t.String() != "error" && u != nil
+							}
+							return false
+						}
+						if tup, isTup := x.Type().(*types.Tuple); isTup {
+							for _, r2 := range *x.Referrers() {
+								if ex, ok := r2.(*ssa.Extract); ok && aliasable(tup.At(ex.Index).Type()) {
+									grow(ex, d+1)
+								}
+							}
+						} else if aliasable(x.Type()) {
+							grow(x, d+1)
+						}
+					}
+				}
+			}
+			grow(root, 0)
+			uses := func(i2 ssa.Instruction) bool {
+				if i2 == in {
+					return false
+				}
+				if _, isDbg := i2.(*ssa.DebugRef); isDbg {
+					return false
+				}
+				for _, op := range i2.Operands(nil) {
+					if op != nil && *op != nil && D[*op] {
+						return true
+					}
+				}
+				return false
+			}
+			if isDefer {
+				// the deferred Put runs when f returns: nothing derived from the object may outlive f
+				escape := ""
+				// results (functions with defer spill them into locals: ResultValues resolves that)
+				for ri := 0; ri < f.Signature.Results().Len(); ri++ {
+					for _, rv := range eng.ResultValues(f, ri) {
+						if D[rv] {
+							escape = "is returned to the caller"
+						}
+					}
+				}
+				eng.Instrs(f, func(i2 ssa.Instruction) {
+					switch x := i2.(type) {
+					case *ssa.Return:
+						for _, r := range x.Results {
+							if D[r] {
+								escape = "is returned to the caller (" + c.P.Pos(x.Pos()) + ")"
+							}
+						}
+					case *ssa.Store:
+						if D[x.Val] {
+							if _, local := x.Addr.(*ssa.Alloc); !local {
+								escape = "is stored outside the function (" + c.P.Pos(x.Pos()) + ")"
+							}
+						}
+					case *ssa.Go:
+						for _, op := range x.Operands(nil) {
+							if op != nil && *op != nil && D[*op] {
+								escape = "is handed to a goroutine (" + c.P.Pos(x.Pos()) + ")"
+							}
+						}
+					case *ssa.Send:
+						if D[x.X] {
+							escape = "is sent on a channel (" + c.P.Pos(x.Pos()) + ")"
+						}
+					}
+				})
+				if escape != "" {
+					c.Fail(rule, key+" (deferred)", in.Pos(), "a value derived from the pooled object "+escape+" although the object goes back to the pool when this function returns: the caller then reads memory another goroutine may already be overwriting")
+				} else {
+					c.OK(rule, key+" (deferred)", in.Pos(), "the pooled object is returned by a deferred call, after its last use, and nothing derived from it outlives the function")
+				}
+				return
+			}
+			reached, path := eng.Reach(f, in, nil, uses)
+			if reached {
+				c.Fail(rule, key, in.Pos(), "a value derived from the pooled object is used after the object was returned to the pool: a concurrent Get can reset or overwrite it meanwhile (bytes of another goroutine's message, or garbage, are encoded/written)", path...)
+			} else {
+				c.OK(rule, key, in.Pos(), "nothing derived from the pooled object is used after Put")
+			}
+		})
+	}
+	c.Count("pool_put_sites", nPut)
+	if nPut == 0 {
+		c.Undecided(rule, "sites", token.NoPos, "no sync.Pool Put site found in "+strings.Join(pkgs, ", "))
+	}
+}
+
+// jsonTargetRule: encoding/json leaves the fields a document omits untouched, so a request
+// must be decoded into a value that is zero: a fresh local, or an object zeroed as a whole
+// (`*p = T{}`) before the decode. Decoding into a pooled or otherwise reused object carries the
+// previous request's key, channel, permissions or ttl into the next one.
+func jsonTargetRule(c *core.Ctx, rule string, pkgs ...string) {
+	c.Rule(rule, "request decoding: the target of json.Unmarshal / (*json.Decoder).Decode in the request handlers is a fresh local variable (or is zeroed as a whole before the call) — never a pooled, cached or shared object", 1)
+	inPkgs := map[string]bool{}
+	for _, p := range pkgs {
+		inPkgs[M+p] = true
+	}
+	n := 0
+	for _, f := range c.P.ScopeFuncs() {
+		if !inPkgs[pkgPathOf(f)] {
+			continue
+		}
+		for _, call := range eng.Calls(f, false, "encoding/json.Unmarshal", "encoding/json.Decoder.Decode") {
+			n++
+			a := eng.CallArgs(call.Common())
+			t := a[len(a)-1]
+			if mi, ok := t.(*ssa.MakeInterface); ok {
+				t = mi.X
+			}
+			key := fmt.Sprintf("%s:decodes into a zero value", fnName(f))
+			fresh := false
+			why := eng.Describe(t)
+			if al, ok := t.(*ssa.Alloc); ok {
+				// a local: never written before the decode except by a zero/initial composite store
+				fresh = true
+				for _, r := range *al.Referrers() {
+					if st, ok := r.(*ssa.Store); ok && st.Addr == al && eng.Dominates(st, call) {
+						if _, isC := st.Val.(*ssa.Const); !isC {
+							fresh, why = false, "the local is assigned ("+eng.Describe(st.Val)+") before the decode"
+						}
+					}
+				}
+				if eng.InLoop(call) && !al.Heap {
+					// a stack slot declared outside the loop would be reused between iterations
+				}
+			} else {
+				// whole-object zero store dominating the decode
+				if t.Referrers() != nil {
+					for _, r := range *t.Referrers() {
+						if st, ok := r.(*ssa.Store); ok && st.Addr == t && eng.Dominates(st, call) {
+							if k, isC := st.Val.(*ssa.Const); isC && k.Value == nil {
+								fresh = true
+							}
+						}
+					}
+				}
+				if !fresh {
+					why = "the target is " + eng.Describe(t) + " (not a local declared for this request, and not zeroed as a whole before the decode)"
+				}
+			}
+			c.Check(fresh, rule, key, call.Pos(), "the request is decoded into a zero value", "a request is decoded into an object that may still hold a previous request: "+why+" — fields the JSON document omits keep the earlier values (key, channel, permissions, ttl)")
+		}
+	}
+	c.Count("json_decode_sites", n)
+	if n == 0 {
+		c.Undecided(rule, "sites", token.NoPos, "no json decode site found in "+strings.Join(pkgs, ", "))
+	}
 }
